@@ -411,11 +411,16 @@ class FineGrainedBuildManager:
         if (
             is_stdlib_file(self.manager.options.abs_custom_typeshed_dir, path)
             or module in SENSITIVE_INTERNAL_MODULES
-        ) and module in self.graph:
-            # Like every processed module, start from a clean error state: the messages of earlier
-            # updates have been flushed, and targets with errors are reprocessed by the caller.
-            self.manager.errors.reset()
-            return [], (module, path), None
+        ):
+            if module in self.graph:
+                # Like every processed module, start from a clean error state: the messages of
+                # earlier updates have been flushed, and targets with errors are reprocessed by
+                # the caller.
+                self.manager.errors.reset()
+                return [], (module, path), None
+            # A standard library stub is never a root source, whatever the import following mode
+            # (stubs are always followed): its own errors must stay hidden.
+            followed = True
 
         manager = self.manager
         previous_modules = self.previous_modules
